@@ -324,3 +324,131 @@ def u_orth(U):
 @unit('transformation.orthogonalize.stab', props=('C04', 'C16'))
 def u_orth_stab(U):
     _orth_unit(U, True)
+
+
+# ----------------------------------------------------------------------------------------------
+# call-site contract of orthogonalize (proved by the units transformation.orthogonalize[.stab])
+
+def call_orthogonalize(ex, st, args, kwargs, node):
+    Ys = st.deref(args[0])
+    if not (isinstance(Ys, VSeq) and Ys.tag == 'core'):
+        raise M.Unsupported('orthogonalize of a non-TT value')
+    d = Ys.n
+    k = args[1] if len(args) > 1 else kwargs.get('k', NONE)
+    use_stab = args[2] if len(args) > 2 else kwargs.get('use_stab', False)
+    if not isinstance(use_stab, bool):
+        raise M.Unsupported('orthogonalize: use_stab must be a literal at the call site')
+    kk = d - 1 if k is NONE else Z(ex.need_num(st, k, node))
+    ex.oblige(st, 'call-pre', 'orthogonalize: well-formed tensor and pivot in range', z3.And(T.wf(Ys.arr, d), kk >= 0, kk <= d - 1), node)
+    new = ex.fresh('Zorth', T.TT)
+    t = z3.Int('t!oc')
+    st.assume(T.wf(new, d),
+              z3.ForAll([t], z3.Implies(z3.And(0 <= t, t < d), z3.And(T.d1(new[t]) == T.d1(Ys.arr[t]), T.d2(new[t]) <= T.d2(Ys.arr[t]))),
+                        patterns=[new[t]]),
+              z3.ForAll([t], z3.Implies(z3.And(0 <= t, t < kk), orthL(new[t])), patterns=[new[t]]),
+              z3.ForAll([t], z3.Implies(z3.And(kk < t, t < d), orthR(new[t])), patterns=[new[t]]))
+    res = st.alloc(VSeq(new, d, M.mk_core, 'core'))
+    st.ghost['orth_result'] = new
+    if use_stab:
+        return VTuple([res, ex.fresh_int('pstab')])
+    return res
+
+
+M.CALLEES['transformation.orthogonalize'] = call_orthogonalize
+
+
+# ----------------------------------------------------------------------------------------------
+# truncate
+
+AXT = T.axioms('shape', 'mulI', 'unfold', 'pow2r', 'cscale')
+
+
+def _truncate_unit(U, is_eigh, use_stab):
+    fn = U.func('transformation', 'truncate')
+    st = U.state()
+    Y, arr, d = S.tt_param(st, 'Y')
+    e0, r0 = z3.Real('e'), z3.Real('r')
+    cap = z3.ToInt(r0)
+    capf = z3.If(cap >= 1, cap, 1)
+    t = z3.Int('t!tr')
+
+    def shapes(Zs):
+        return [('length', Zs.n == d), ('well-formed', T.wf(Zs.arr, d)),
+                ('mode-sizes', z3.ForAll([t], z3.Implies(z3.And(0 <= t, t < d), T.d1(Zs.arr[t]) == T.d1(arr[t])), patterns=[Zs.arr[t]])),
+                ('ranks-at-most-input-ranks', z3.ForAll([t], z3.Implies(z3.And(0 <= t, t < d), T.d2(Zs.arr[t]) <= T.d2(arr[t])),
+                                                        patterns=[Zs.arr[t]]))]
+
+    def inv0(ex, s, j):            # right-to-left sweep, k = d-1-j is the next core to be processed
+        Zs = s.deref(s.vars['Z'])
+        k = d - 1 - j
+        return shapes(Zs) + [
+            ('processed-bonds-within-cap', z3.ForAll([t], z3.Implies(z3.And(k < t, t < d), T.d0(Zs.arr[t]) <= capf), patterns=[Zs.arr[t]])),
+            ('kept-factors-have-orthonormal-rows', z3.ForAll([t], z3.Implies(z3.And(k < t, t < d), orthR(Zs.arr[t])), patterns=[Zs.arr[t]])),
+            ('argument-untouched', z3.BoolVal(s.heap[Y.oid].arr is arr))]
+
+    def inv1(ex, s, j):            # redistribution of the exponent: shapes only
+        Zs = s.deref(s.vars['Z'])
+        if 'Zpre' not in s.ghost:
+            s.ghost['Zpre'] = Zs.arr
+        pre_ = s.ghost['Zpre']
+        return [('length', Zs.n == d),
+                ('shapes-kept', z3.ForAll([t], z3.Implies(z3.And(0 <= t, t < d), z3.And(T.d0(Zs.arr[t]) == T.d0(pre_[t]), T.d1(Zs.arr[t]) == T.d1(pre_[t]),
+                                                                                      T.d2(Zs.arr[t]) == T.d2(pre_[t]))), patterns=[Zs.arr[t]])),
+                ('argument-untouched', z3.BoolVal(s.heap[Y.oid].arr is arr))]
+
+    def body_end0(ex_, s_, o_, j_):
+        # C02: the threshold handed to every factorisation is e * ||Z_orth[d-1]||_F / sqrt(d-1), the cap is r
+        calls = s_.ghost.get('fact_calls', [])
+        sq = [x for x in s_.ghost.get('sqrt', []) if True]
+        if len(calls) != 1 or len(sq) != 1 or 'orth_result' not in s_.ghost:
+            ex_.oblige(s_, 'post', 'exactly-one-factorisation-per-bond', False, None, assume=False)
+            return
+        c = calls[0]
+        arg, root = sq[0]
+        ex_.oblige(s_, 'post', 'sqrt-is-of-d-1', arg == z3.ToReal(d - 1), None, assume=False)
+        ex_.oblige(s_, 'post', 'threshold-is-e-times-norm-over-sqrt(d-1)',
+                   M.to_real(c['e']) * root == e0 * T.fro(s_.ghost['orth_result'][d - 1]), None, assume=False)
+        ex_.oblige(s_, 'post', 'cap-is-r', M.to_real(c['r']) == r0, None, assume=False)
+        ex_.oblige(s_, 'post', 'factorisation-keeps-an-orthonormal-right-factor', z3.BoolVal(c['give'] == 'l' and not c['rel']), None,
+                   assume=False)
+
+    ex = U.executor(fn, loops={0: {'inv': inv0, 'body_end': body_end0}, 1: {'inv': inv1}}, axioms=AXT)
+    ex.mode = 'ematch'
+    st.vars.update(Y=Y, e=e0, r=r0, orth=True, use_stab=use_stab, is_eigh=is_eigh)
+    res = U.run(ex, st, pre=[T.wf(arr, d), e0 >= 0, r0 >= 0])
+    U.cover('precondition-satisfiable', U.pre, axioms=AXT)
+    for p, o in res:
+        if o.kind != 'return':
+            U.post('no-exception', p, False, axioms=AXT, mode='ematch')
+            continue
+        Zs = p.deref(o.value)
+        U.post('fresh-result', p, z3.BoolVal(isinstance(o.value, VRef) and o.value.oid != Y.oid and p.heap[Y.oid].arr is arr))
+        if use_stab:
+            pre_ = p.ghost.get('Zpre')
+            hyp_shape = [] if pre_ is None else []
+            U.post('length', p, Zs.n == d, axioms=AXT, mode='ematch')
+            tt = z3.Int('tt')
+            U.post('mode-sizes', p, z3.Implies(z3.And(0 <= tt, tt < d), T.d1(Zs.arr[tt]) == T.d1(arr[tt])), axioms=AXT, mode='ematch')
+            U.post('ranks-at-most-input-ranks', p, z3.Implies(z3.And(0 <= tt, tt < d), T.d2(Zs.arr[tt]) <= T.d2(arr[tt])), axioms=AXT, mode='ematch')
+            U.post('ranks-at-most-cap', p, z3.Implies(z3.And(1 <= tt, tt < d), T.d0(Zs.arr[tt]) <= capf), axioms=AXT, mode='ematch')
+            U.post('well-formed', p, T.wf(Zs.arr, d), axioms=AXT, mode='ematch')
+        else:
+            for lbl, g in shapes(Zs):
+                U.post(lbl, p, g, axioms=AXT, mode='ematch')
+            tt = z3.Int('tt')
+            U.post('ranks-at-most-cap', p, z3.Implies(z3.And(1 <= tt, tt < d), T.d0(Zs.arr[tt]) <= capf), axioms=AXT, mode='ematch')
+            U.post('kept-factors-have-orthonormal-rows (hypothesis of L-ROUND)', p,
+                   z3.Implies(z3.And(1 <= tt, tt < d), orthR(Zs.arr[tt])), axioms=AXT, mode='ematch')
+
+
+def _mk_trunc(is_eigh, use_stab):
+    name = f'transformation.truncate.{"eigh" if is_eigh else "svd"}' + ('.stab' if use_stab else '')
+
+    @unit(name, props=('C02', 'C11') + (('C16',) if use_stab else ()))
+    def u(U):
+        _truncate_unit(U, is_eigh, use_stab)
+
+
+for _e in (True, False):
+    for _s in (False, True):
+        _mk_trunc(_e, _s)
